@@ -710,3 +710,302 @@ Lemma loop_saved now file ops :
   let st := lrun ops (l_start now file) in
   l_armed st = false -> l_file st = Some (l_map st) \/ l_map st = l_map (l_start now file).
 Proof. intros st. apply (linv_run _ ops _ (linv_start now file)). Qed.
+
+(* ================================================================== a stalled subscriber *)
+Open Scope nat_scope.
+
+(* s1 and s2 have the same subscribers except possibly the j-th *)
+Fixpoint agree (j : nat) (s1 s2 : nstate) {struct s1} : Prop :=
+  match s1, s2 with
+  | [], [] => True
+  | c1 :: r1, c2 :: r2 => match j with O => r1 = r2 | S j' => c1 = c2 /\ agree j' r1 r2 end
+  | _, _ => False
+  end.
+
+Lemma publish_cons e c r :
+  snd (publish e (c :: r)) = snd (try_send e c) :: snd (publish e r).
+Proof.
+  unfold publish. simpl. destruct (try_send e c) as [o c']. destruct (publish_with try_send e r) as [os r'].
+  reflexivity.
+Qed.
+
+Lemma agree_publish e : forall j s1 s2, agree j s1 s2 -> agree j (snd (publish e s1)) (snd (publish e s2)).
+Proof.
+  intros j s1. revert j. induction s1 as [|c1 r1 IH]; intros j s2 A; destruct s2 as [|c2 r2]; simpl in A; try contradiction.
+  - unfold publish. simpl. exact I.
+  - rewrite !publish_cons. destruct j as [|j]; simpl.
+    + subst. reflexivity.
+    + destruct A as [E A]. subst. split; [reflexivity|]. apply IH, A.
+Qed.
+
+Lemma agree_update f i : forall j s1 s2, agree j s1 s2 -> agree j (update_nth i f s1) (update_nth i f s2).
+Proof.
+  revert i. intros i j s1. revert i j. induction s1 as [|c1 r1 IH]; intros i j s2 A; destruct s2 as [|c2 r2]; simpl in A; try contradiction.
+  - destruct i; exact I.
+  - destruct i as [|i], j as [|j]; simpl.
+    + exact A.
+    + destruct A as [E A]. subst. split; [reflexivity|exact A].
+    + subst. reflexivity.
+    + destruct A as [E A]. subst. split; [reflexivity|]. apply IH, A.
+Qed.
+
+Lemma agree_app x : forall j s1 s2, agree j s1 s2 -> agree j (s1 ++ [x]) (s2 ++ [x]).
+Proof.
+  intros j s1. revert j. induction s1 as [|c1 r1 IH]; intros j s2 A; destruct s2 as [|c2 r2]; simpl in A; try contradiction.
+  - simpl. destruct j; [reflexivity|split; [reflexivity|exact I]].
+  - simpl. destruct j as [|j].
+    + subst. reflexivity.
+    + destruct A as [E A]. subst. split; [reflexivity|]. apply IH, A.
+Qed.
+
+Lemma agree_step o j s1 s2 : agree j s1 s2 -> agree j (nstep s1 o) (nstep s2 o).
+Proof.
+  intro A. destruct o as [e|i|k|i]; simpl.
+  - apply agree_publish, A.
+  - apply agree_update, A.
+  - apply agree_app, A.
+  - apply agree_update, A.
+Qed.
+
+Lemma agree_run ops : forall j s1 s2, agree j s1 s2 -> agree j (nrun ops s1) (nrun ops s2).
+Proof.
+  induction ops as [|o r IH]; intros j s1 s2 A; [exact A|]. simpl. apply IH, agree_step, A.
+Qed.
+
+Lemma agree_set cj : forall j s, agree j (update_nth j (fun _ => cj) s) s.
+Proof.
+  intros j s. revert j. induction s as [|c r IH]; intros j.
+  - destruct j; exact I.
+  - destruct j as [|j]; simpl; [reflexivity|]. split; [reflexivity|apply IH].
+Qed.
+
+Lemma agree_others : forall j s1 s2, agree j s1 s2 -> others j s1 = others j s2.
+Proof.
+  intros j s1. revert j. induction s1 as [|c1 r1 IH]; intros j s2 A; destruct s2 as [|c2 r2]; simpl in A; try contradiction.
+  - reflexivity.
+  - destruct j as [|j]; unfold others; simpl.
+    + subst. reflexivity.
+    + destruct A as [E A]. subst. f_equal. apply (IH j r2 A).
+Qed.
+
+(* what the other subscribers hold and have been handed does not depend on subscriber j *)
+Lemma others_independent ops s j cj :
+  others j (nrun ops (update_nth j (fun _ => cj) s)) = others j (nrun ops s).
+Proof. apply agree_others, agree_run, agree_set. Qed.
+
+Lemma update_nth_length {A} (f : A -> A) : forall i l, length (update_nth i f l) = length l.
+Proof.
+  intros i l. revert i. induction l as [|x r IH]; intros i; [destruct i; reflexivity|].
+  destruct i; simpl; [reflexivity|]. rewrite IH. reflexivity.
+Qed.
+
+(* one step that is not a read by subscriber j, seen from j: nothing is handed over, the queue
+   stays within its capacity *)
+Lemma nstep_stalled s o j c : nth_error s j = Some c -> o <> NRecv j ->
+  exists c1, nth_error (nstep s o) j = Some c1 /\ got c1 = got c /\ cap c1 = cap c /\
+             (length (buf c) <= cap c -> length (buf c1) <= cap c1).
+Proof.
+  intros H NR. destruct o as [e|i|k|i]; simpl.
+  - exists (snd (try_send e c)). split; [apply publish_nth; exact H|].
+    destruct (try_send_cases e c) as (Hc & _ & Hg & [(Hb & _ & F)|(He & _)]).
+    + split; [exact Hg|]. split; [exact Hc|]. intros _. rewrite Hb, Hc, app_length. simpl. lia.
+    + rewrite He. auto.
+  - rewrite nth_error_update_nth. destruct (Nat.eqb j i) eqn:E.
+    + apply Nat.eqb_eq in E. subst. contradiction NR. reflexivity.
+    + exists c. auto.
+  - exists c. split; [|auto]. rewrite nth_error_app1; [exact H|]. apply nth_error_Some. congruence.
+  - rewrite nth_error_update_nth. destruct (Nat.eqb j i) eqn:E.
+    + rewrite H. simpl. exists (unsub_chan c). simpl. auto.
+    + exists c. auto.
+Qed.
+
+Lemma nrun_stalled ops : forall s j c, nth_error s j = Some c -> stalled j ops = true ->
+  exists c1, nth_error (nrun ops s) j = Some c1 /\ got c1 = got c /\
+             (length (buf c) <= cap c -> length (buf c1) <= cap c1).
+Proof.
+  induction ops as [|o r IH]; intros s j c H St.
+  - exists c. auto.
+  - assert (NR : o <> NRecv j /\ stalled j r = true).
+    { destruct o as [e|i|k|i]; simpl in St; try (split; [discriminate|exact St]).
+      apply andb_true_iff in St. destruct St as [N St]. split; [|exact St].
+      intro E. inversion E; subst. rewrite Nat.eqb_refl in N. discriminate. }
+    destruct NR as [NR St'].
+    destruct (nstep_stalled s o j c H NR) as (c1 & H1 & G1 & C1 & B1).
+    destruct (IH (nstep s o) j c1 H1 St') as (c2 & H2 & G2 & B2).
+    exists c2. simpl. split; [exact H2|]. split; [congruence|]. intro L. apply B2, B1, L.
+Qed.
+
+Lemma stalled_subscriber ops s j cj :
+  stalled j ops = true -> nth_error s j = Some cj ->
+  (forall pre e post, ops = pre ++ NPub e :: post ->
+     let st := nrun pre s in
+     Forall (fun o => o <> Blocked) (fst (publish e st)) /\
+     forall cj', publish_cost e (update_nth j (fun _ => cj') st) = publish_cost e st) /\
+  (exists cj', nth_error (nrun ops s) j = Some cj' /\ got cj' = got cj /\
+               (length (buf cj) <= cap cj -> length (buf cj') <= cap cj')) /\
+  (forall cj', others j (nrun ops (update_nth j (fun _ => cj') s)) = others j (nrun ops s)) /\
+  (forall i c, i <> j -> nth_error s i = Some c -> live c = true ->
+     Forall (fun o => o <> NUnsub i) ops -> never_full i ops s = true ->
+     exists c', nth_error (nrun ops s) i = Some c' /\ delivered c' = delivered c ++ pubs ops).
+Proof.
+  intros St H. split; [|split; [|split]].
+  - intros pre e post _ st. split; [apply publish_never_blocks|].
+    intro cj'. rewrite !publish_cost_length. apply update_nth_length.
+  - apply nrun_stalled; assumption.
+  - intro cj'. apply others_independent.
+  - intros i c _ Hi L NU NF. apply nrun_lagging_all; assumption.
+Qed.
+
+(* a fan-out that waits for a free slot does block on a stalled subscriber whose queue is full *)
+Lemma waiting_fanout_blocks :
+  exists e s j c, nth_error s j = Some c /\ live c = true /\ length (buf c) = cap c /\
+    In Blocked (fst (publish_with blocking_send e s)).
+Proof.
+  exists (ECert 1 [7%N]), [mkChan 16 true [] []; mkChan 1 true [EWebLogin [1%N]] []], 1, (mkChan 1 true [EWebLogin [1%N]] []).
+  vm_compute. repeat split; auto.
+Qed.
+
+(* ================================================================== the history file *)
+
+Lemma fs_get_del n m fs : fs_get n (fs_del m fs) = if bs_eqb m n then None else fs_get n fs.
+Proof.
+  induction fs as [|[k c] r IH]; simpl.
+  - destruct (bs_eqb m n); reflexivity.
+  - destruct (bs_eqb k m) eqn:E.
+    + apply bs_eqb_eq in E. subst k. rewrite IH. destruct (bs_eqb m n); reflexivity.
+    + simpl. rewrite IH. destruct (bs_eqb k n) eqn:E2; [|reflexivity].
+      apply bs_eqb_eq in E2. subst k. rewrite bs_eqb_neq in E.
+      destruct (bs_eqb m n) eqn:E3; [|reflexivity]. apply bs_eqb_eq in E3. congruence.
+Qed.
+
+Lemma fs_get_set n m c fs : fs_get n (fs_set m c fs) = if bs_eqb m n then Some c else fs_get n fs.
+Proof.
+  unfold fs_set. simpl. destruct (bs_eqb m n) eqn:E; [reflexivity|]. rewrite fs_get_del, E. reflexivity.
+Qed.
+
+Lemma tmp_name_neq f : bs_eqb (tmp_name f) f = false.
+Proof.
+  apply bs_eqb_neq. intro E. apply (f_equal (@length N)) in E. unfold tmp_name in E.
+  rewrite app_length in E. simpl in E. lia.
+Qed.
+Lemma tmp_name_neq' f : bs_eqb f (tmp_name f) = false.
+Proof. apply bs_eqb_neq. intro E. symmetry in E. apply bs_eqb_neq in E; [exact E|apply tmp_name_neq]. Qed.
+
+Ltac fs_simpl :=
+  repeat (rewrite ?fs_get_set, ?fs_get_del, ?tmp_name_neq, ?tmp_name_neq', ?bs_eqb_refl; simpl).
+
+(* the file system after a save that completes, crashes before step k or fails at step k: name f
+   holds what it held before or the new generation; every name but f and f~ is untouched *)
+Lemma save_get f g st fs :
+  let fs' := run_save (save_prog f g) (save_cleanup f) st fs in
+  (fs_get f fs' = fs_get f fs \/ fs_get f fs' = Some (FWhole g)) /\
+  (st = Completes -> fs_get f fs' = Some (FWhole g)) /\
+  (forall k, st = FaultAt k -> k <= 5 -> fs_get f fs' = fs_get f fs) /\
+  (forall k, st = CrashAt k -> k <= 5 -> fs_get f fs' = fs_get f fs) /\
+  (forall n, n <> f -> n <> tmp_name f -> fs_get n fs' = fs_get n fs).
+Proof.
+  assert (OTH : forall n, n <> f -> n <> tmp_name f -> bs_eqb (tmp_name f) n = false /\ bs_eqb f n = false).
+  { intros n A B. split; apply bs_eqb_neq; congruence. }
+  destruct st as [|k|k]; unfold run_save, save_prog, save_cleanup, fs_run.
+  - simpl. fs_simpl. split; [right; reflexivity|]. split; [reflexivity|]. split; [discriminate|]. split; [discriminate|].
+    intros n A B. destruct (OTH n A B) as [E1 E2]. fs_simpl. rewrite ?E1, ?E2. simpl. fs_simpl. rewrite ?E1, ?E2. reflexivity.
+  - split; [|split; [discriminate|split; [discriminate|split]]].
+    + destruct k as [|[|[|[|[|[|[|k]]]]]]]; simpl; fs_simpl; auto. destruct k; simpl; fs_simpl; auto.
+    + intros k' E L. inversion E; subst k'.
+      destruct k as [|[|[|[|[|[|k]]]]]]; simpl; fs_simpl; auto. lia.
+    + intros n A B. destruct (OTH n A B) as [E1 E2].
+      destruct k as [|[|[|[|[|[|[|k]]]]]]]; simpl; fs_simpl; rewrite ?E1, ?E2; simpl; fs_simpl; rewrite ?E1, ?E2; auto.
+      destruct k; simpl; fs_simpl; rewrite ?E1, ?E2; simpl; fs_simpl; rewrite ?E1, ?E2; auto.
+  - split; [|split; [discriminate|split; [|split; [discriminate|]]]].
+    + destruct k as [|[|[|[|[|[|[|k]]]]]]]; simpl; fs_simpl; auto. destruct k; simpl; fs_simpl; auto.
+    + intros k' E L. inversion E; subst k'.
+      destruct k as [|[|[|[|[|[|k]]]]]]; simpl; fs_simpl; auto. lia.
+    + intros n A B. destruct (OTH n A B) as [E1 E2].
+      destruct k as [|[|[|[|[|[|[|k]]]]]]]; simpl; fs_simpl; rewrite ?E1, ?E2; simpl; fs_simpl; rewrite ?E1, ?E2; auto.
+      destruct k; simpl; fs_simpl; rewrite ?E1, ?E2; simpl; fs_simpl; rewrite ?E1, ?E2; auto.
+Qed.
+
+Lemma save_get_late f g st fs k : (st = FaultAt k \/ st = CrashAt k) -> 6 <= k ->
+  fs_get f (run_save (save_prog f g) (save_cleanup f) st fs) = Some (FWhole g).
+Proof.
+  intros [E|E] L; subst st; unfold run_save, save_prog, save_cleanup, fs_run;
+    (destruct k as [|[|[|[|[|[|[|k]]]]]]]; try lia; simpl; fs_simpl; auto; destruct k; simpl; fs_simpl; auto).
+Qed.
+
+(* did the save get as far as its rename? *)
+Definition renamed (st : stop) : bool :=
+  match st with Completes => true | CrashAt k | FaultAt k => 6 <=? k end.
+
+Lemma save_load f g st fs :
+  startup_load (run_save (save_prog f g) (save_cleanup f) st fs) f =
+  if renamed st then LGen g else startup_load fs f.
+Proof.
+  unfold startup_load. destruct (save_get f g st fs) as (_ & C & F & K & _).
+  destruct st as [|k|k]; unfold renamed.
+  - rewrite (C eq_refl). reflexivity.
+  - destruct (6 <=? k) eqn:E.
+    + apply Nat.leb_le in E. rewrite (save_get_late f g (CrashAt k) fs k (or_intror eq_refl) E). reflexivity.
+    + apply Nat.leb_gt in E. rewrite (K k eq_refl); [reflexivity|lia].
+  - destruct (6 <=? k) eqn:E.
+    + apply Nat.leb_le in E. rewrite (save_get_late f g (FaultAt k) fs k (or_introl eq_refl) E). reflexivity.
+    + apply Nat.leb_gt in E. rewrite (F k eq_refl); [reflexivity|lia].
+Qed.
+
+(* any number of saves, each ending in any way *)
+Definition run_saves (f : bs) (saves : list (rstate * stop)) (fs : fsys) : fsys :=
+  fold_left (fun fs gs => run_save (save_prog f (fst gs)) (save_cleanup f) (snd gs) fs) saves fs.
+Fixpoint last_renamed (saves : list (rstate * stop)) (acc : option rstate) : option rstate :=
+  match saves with
+  | [] => acc
+  | (g, st) :: r => last_renamed r (if renamed st then Some g else acc)
+  end.
+
+Lemma saves_load f saves : forall fs,
+  startup_load (run_saves f saves fs) f =
+  match last_renamed saves None with Some g => LGen g | None => startup_load fs f end.
+Proof.
+  induction saves as [|[g st] r IH]; intros fs; [reflexivity|].
+  unfold run_saves in *. simpl. rewrite IH, save_load. simpl.
+  destruct (renamed st).
+  - assert (E : forall r acc, last_renamed r acc = match last_renamed r None with Some x => Some x | None => acc end).
+    { clear. induction r as [|[g' st'] r IH]; intros acc; simpl; [reflexivity|].
+      destruct (renamed st'); [|apply IH].
+      rewrite (IH (Some g')). destruct (last_renamed r None); reflexivity. }
+    rewrite (E r (Some g)). destruct (last_renamed r None); reflexivity.
+  - reflexivity.
+Qed.
+
+Lemma aside_loses :
+  exists f g old fs, fs_get f fs = Some (FWhole old) /\
+    (exists k, startup_load (run_save (save_prog_aside f g) (save_cleanup f) (CrashAt k) fs) f = LFirstStart) /\
+    (exists k, startup_load (run_save (save_prog_aside f g) (save_cleanup f) (FaultAt k) fs) f = LFirstStart).
+Proof.
+  exists [102%N], (gen_tag 2), (gen_tag 1), [([102%N], FWhole (gen_tag 1))].
+  split; [reflexivity|]. split; [exists 4|exists 4]; vm_compute; reflexivity.
+Qed.
+
+Lemma startup_name_only now fs fs' f : fs_get f fs = fs_get f fs' -> startup now fs f = startup now fs' f.
+Proof. intro E. unfold startup, startup_load. rewrite E. reflexivity. Qed.
+
+Lemma startup_leftover now fs f n c : n <> f ->
+  startup now (fs_set n c fs) f = startup now fs f /\ startup now (fs_del n fs) f = startup now fs f.
+Proof.
+  intro N. assert (E : bs_eqb n f = false) by (apply bs_eqb_neq; exact N).
+  split; apply startup_name_only; [rewrite fs_get_set|rewrite fs_get_del]; rewrite E; reflexivity.
+Qed.
+
+Lemma save_atomic f g st fs :
+  let fs' := run_save (save_prog f g) (save_cleanup f) st fs in
+  (startup_load fs' f = startup_load fs f \/ startup_load fs' f = LGen g) /\
+  (forall old, fs_get f fs = Some (FWhole old) ->
+     startup_load fs' f = LGen old \/ startup_load fs' f = LGen g) /\
+  (st = Completes -> startup_load fs' f = LGen g) /\
+  (forall k, st = FaultAt k \/ st = CrashAt k -> k <= 5 -> startup_load fs' f = startup_load fs f) /\
+  (forall n, n <> f -> n <> tmp_name f -> fs_get n fs' = fs_get n fs).
+Proof.
+  intro fs'. subst fs'. rewrite save_load. split; [destruct (renamed st); auto|]. split; [|split; [|split]].
+  - intros old E. destruct (renamed st); [auto|]. left. unfold startup_load. rewrite E. reflexivity.
+  - intro E. subst. reflexivity.
+  - intros k [E|E] L; subst; unfold renamed; (destruct (6 <=? k) eqn:E; [apply Nat.leb_le in E; lia|reflexivity]).
+  - apply save_get.
+Qed.
